@@ -282,6 +282,7 @@ class Interp(object):
         self.observe = observe
         self.outcomes = []
         self.unmodelled = {}
+        self.unmodelled_info = {}
         self.obs_ctor = {}
         self.obs_cast = {}
         self.obs_call = {}
@@ -1186,6 +1187,7 @@ class Interp(object):
         if r is not None:
             return r
         self.unmodelled[c['path_args']] = self.unmodelled.get(c['path_args'], 0) + 1
+        self.unmodelled_info[c['path_args']] = (c['path'], c.get('trait'), c.get('resolved_krate') or c['krate'], c.get('resolved'), fr.key)
         st.notes.append('unmodelled callee ' + c['path_args'])
         self.havoc_args(st, args)
         return self.done(st, fr, t, self.top_of(st, self.ret_ty(fr, t), 'ret'))
